@@ -154,38 +154,83 @@ def apply_edit(cx, mido, mid, edit, k):
     return True
 
 
-@harness(labels=['same-as-fresh-file', 'no-hidden-state-beyond-the-merge-cache', 'applied'])
+@harness(labels=['same-as-fresh-file', 'independent-of-earlier-observations', 'no-hidden-state-beyond-the-merge-cache',
+                 'applied'])
 def cache_step(cx, shape, pre, edits, post):
-    """observe (or not), edit(s), observe: must equal the same observation on a
-    freshly built MidiFile with the same contents."""
+    """observe (or not), edit(s), observe: must equal (a) the same observation on a freshly built MidiFile with
+    the same contents and (b) the observation on a twin file that was built from the same values and edited the
+    same way but never observed before."""
     import mido
-    tracks = [_mk_track(cx, mido, 't%d_' % i, n, with_tempo=(i == 0 and abs(n) > 0)) for i, n in enumerate(shape)]
-    mid = mido.MidiFile(type=1, ticks_per_beat=96, tracks=tracks)
+
+    def build():
+        tracks = [_mk_track(cx, mido, 't%d_' % i, n, with_tempo=(i == 0 and abs(n) > 0)) for i, n in enumerate(shape)]
+        return mido.MidiFile(type=1, ticks_per_beat=96, tracks=tracks)
+    mid = build()
+    twin = build()                     # same symbolic values, separate objects
     public = set(vars(mido.MidiFile(type=1)))
     if pre != 'none':
         _, exc = cx.raises(lambda: observe(cx, mido, mid, pre), ValueError, TypeError, label='applied')
     for k, e in enumerate(edits):
         if not apply_edit(cx, mido, mid, e, k):
             return
+        apply_edit(cx, mido, twin, e, k)
     cx.reach('applied')
     fresh = mido.MidiFile(type=mid.type, ticks_per_beat=mid.ticks_per_beat,
                           tracks=[mido.MidiTrack(m.copy() for m in tr) for tr in mid.tracks])
     a, ea = cx.raises(lambda: observe(cx, mido, mid, post), ValueError, TypeError, label='same-as-fresh-file')
     b, eb = cx.raises(lambda: observe(cx, mido, fresh, post), ValueError, TypeError, label='same-as-fresh-file')
-    if ea is not None or eb is not None:
+    c, ec = cx.raises(lambda: observe(cx, mido, twin, post), ValueError, TypeError,
+                      label='independent-of-earlier-observations')
+    if ea is not None or eb is not None or ec is not None:
         cx.check(type(ea) is type(eb), 'same-as-fresh-file')
+        cx.check(type(ea) is type(ec), 'independent-of-earlier-observations')
         return
     cx.observe('n_atoms', len(a))
     cx.check(same_obs(cx, a, b), 'same-as-fresh-file')
+    cx.check(same_obs(cx, a, c), 'independent-of-earlier-observations')
     # (informational: which attributes the object carries beyond those of a new file)
     cx.reach('no-hidden-state-beyond-the-merge-cache')
     cx.observe('extra_attributes', sorted(set(vars(mid)) - public))
 
 
+@harness(labels=['returned-objects-are-detached'])
+def detached(cx, shape, obs):
+    """What an observation hands out (messages of iteration / merged_track / play) belongs to the caller: changing
+    those objects must not change the file, nor any other file."""
+    import mido
+    tracks = [_mk_track(cx, mido, 't%d_' % i, n, with_tempo=(i == 0 and abs(n) > 0)) for i, n in enumerate(shape)]
+    mid = mido.MidiFile(type=1, ticks_per_beat=96, tracks=tracks)
+    other = mido.MidiFile(type=1, ticks_per_beat=96, tracks=[_mk_track(cx, mido, 'o_', 1)])
+    before = [observe(cx, mido, mid, o) for o in ('merged_track', 'length', 'save')]
+    before_other = [observe(cx, mido, other, o) for o in ('merged_track', 'length')]
+    if obs == 'merged_track':
+        got = list(mid.merged_track)
+    elif obs == 'iterate':
+        got = list(mid)
+    else:
+        import mido.midifiles.midifiles as mf
+        clock = _Clock()
+        real = mf.time
+        mf.time = clock
+        try:
+            got = list(mid.play(meta_messages=True, now=clock.now))
+        finally:
+            mf.time = real
+    bump = cx.int('bump', 1, 300)
+    for m in got:
+        m.time = m.time + bump
+        if m.type == 'note_on':
+            m.note = (0 if cx.symbolic else 0)
+    after = [observe(cx, mido, mid, o) for o in ('merged_track', 'length', 'save')]
+    after_other = [observe(cx, mido, other, o) for o in ('merged_track', 'length')]
+    cx.check(cx.And(*[same_obs(cx, x, y) for x, y in zip(before + before_other, after + after_other)]),
+             'returned-objects-are-detached')
+
+
 BOUNDS = {
     'quick': 'files of 0..2 tracks x 0..2 messages (deltas in 0..300 and notes symbolic, a set_tempo from a menu), every pre-observation in '
              '{none, iterate, length, play, save} (thorough: also merged_track); one shape has an end_of_track inside the track; x every one of 17 documented edits (track index, message index '
-             'and new values symbolic) x every post-observation, compared with a freshly built file; selected two-edit histories',
+             'and new values symbolic) x every post-observation, compared with a freshly built file and with a never-observed twin; objects returned by observations are mutated by the caller; selected two-edit histories',
     'thorough': 'all ordered pairs of edits between observations',
 }
 OUTSIDE = 'edits through vars(); files with more than 2 tracks x 2 messages; three or more edits in a row (covered by induction ' \
@@ -203,12 +248,17 @@ def JOBS(tier):
                 for post in OBS:
                     if tier == 'quick' and sh == [] and pre not in ('none', 'iterate'):
                         continue
+                    if tier == 'quick' and sh == [-3] and pre not in ('none', 'iterate', 'save'):
+                        continue
                     jobs.append((cache_step, {'shape': sh, 'pre': pre, 'edits': [e], 'post': post},
                                  {'width': 0, 'cost': 1 + sum(abs(x) for x in sh)}))
     pairs = [('track.append', 'msg.time='), ('tracks.append', 'track.append'), ('add_track', 'track.append'),
              ('msg.time=', 'ticks_per_beat='), ('del tracks[i]', 'tracks.append'), ('tempo=', 'track.insert')]
     if tier != 'quick':
         pairs = [(a, b) for a in EDITS for b in EDITS]
+    for sh in ([1], [2, 1], [-3], []):
+        for o in ('merged_track', 'iterate', 'play'):
+            jobs.append((detached, {'shape': sh, 'obs': o}, {'width': 0, 'cost': 5}))
     for a, b in pairs:
         for pre in ('iterate', 'length'):
             for post in ('iterate', 'length', 'save'):
